@@ -1,0 +1,36 @@
+// +build verif
+
+package http
+
+// VerifParseRequest runs the request parser on raw bytes and returns what a handler would see.
+func VerifParseRequest(raw string) (method, uri, version string, headers map[string]string, body string, status int) {
+	con := &Connection{status_code: 200, recv_buf: raw}
+	con.request = newRequest()
+	con.request.parse(con)
+	r := con.request
+	return r.method_raw, r.uri, r.version_raw, r.headers.ptr, r.body, con.status_code
+}
+
+// VerifBuildRequest builds the bytes the bundled client sends for a request.
+func VerifBuildRequest(method, path, ip string, port int, headers map[string]string, body string) string {
+	r := newRequest()
+	r.init(path, ip, port)
+	r.method_raw = method
+	for k, v := range headers {
+		r.headers.ptr[k] = v
+	}
+	r.body = body
+	return r.send()
+}
+
+// VerifServe handles one request on the connection exactly as the server does after Accept.
+func VerifServe(con *Connection) { con.handler() }
+
+// VerifHandle registers a handler in the default mux (the server's HandleFunc without a Server).
+func VerifHandle(pattern string, h func(*Request, *Response)) {
+	var s *Server
+	s.HandleFunc(pattern, h)
+}
+
+// VerifResetMux forgets all registered handlers.
+func VerifResetMux() { defaultMux.m = nil }
